@@ -97,6 +97,21 @@ CLAIMED = {
               "registration visibility timing; races the script itself creates on shared global values."),
         technique="lock-set analysis with requirement propagation over the resolved call graph; guarded-by table; mutable/field inventory",
         ref="DESIGN.md section 4 C13"),
+    "C07": dict(
+        text=("Decides that every route by which script-driven code could obtain a writable pointer into a boxed object passes "
+              "a const check, and that everything which must be const is created const - over all template instantiations of "
+              "the cast kernel and return handlers: the mutable data pointer is null when the type is const and has exactly "
+              "three enumerated writers; every consumer of get_ptr() hands the pointer to the const-checking verifier or "
+              "dereferences it only under a null test (incl. through lambdas and callees); every const-removing cast in the "
+              "library is inventoried against a three-entry allow-list; the non-const verify_type overloads require "
+              "!is_const(); in Equation/Prefix the const test dominates every mutating continuation and every "
+              "Boxed_Value::assign has a receiver proven undefined or non-const; all Constant nodes built by parser and "
+              "optimizer originate from const_var/buildInt/buildFloat/the arithmetic kernel; const return forms, const_var "
+              "and add_global_const box const-qualified referents; data members of const objects are returned const. Not "
+              "decided: the exhaustive sequence space of mutation attempts at run time; shallow constness of Boxed_Value "
+              "handles stored inside const containers (noted in DESIGN.md)."),
+        technique="who-may-write / check-dominates-use rules, const-cast inventory, value-origin (def-use) analysis over all instantiations",
+        ref="DESIGN.md section 4 C07"),
 }
 
 NOT_YET = "check not built yet in this session (design in DESIGN.md section 4); will be claimed once its rules run clean both ways"
